@@ -1,33 +1,36 @@
 // UNIT: id=C11 cxxflags="-ffunction-sections -fdata-sections" ldflags="-Wl,--gc-sections"
 // ASSUME: ONE modelled thread: galois/Loops.h is cut - do_all runs its body sequentially over the real range object, on_each runs its body once as (tid 0 of 1); multi-thread construction and the atomic-counter transpose under real interleavings are outside
 // ASSUME: the out-index (per-node edge counts) is ENUMERATED (all 56 monotone arrays for nodes<=3, edges<=4, one solver query each), not symbolic: the library's loops over edge ranges need concrete trip counts; destinations, edge data, lookup keys are solver variables
+// ASSUME: one solver query covers a group of 5 consecutive out-index arrays (parameter p -> shapes 5p..5p+4), run one after the other on fresh graph objects
 // ASSUME: LargeArray's NUMA allocators (largeMallocInterleaved/Blocked/Local/Floating) are zero-filled heap blocks of EXACTLY the requested byte count and nullptr for 0 bytes (the real allocator rounds up to 2 MB pages and returns nullptr for 0 pages): any access past element count-1 is out of bounds for the checker
 // ASSUME: the input graph file is built in memory by the real FileGraph::fromArrays (version 1) with mmap modelled as a zero-filled heap block of the requested length rounded up to 8 bytes; FileGraph objects are never destroyed
 // ASSUME: thread pool = a one-thread pool built in place; per-thread storage = bump allocator over a static page; StatTimer does nothing; no SimpleRuntimeContext is installed (calls outside a parallel loop), so acquire() is a no-op
 // ASSUME: GALOIS_DIE/GALOIS_SYS_DIE keep their abort() but drop the message formatting; a reached abort() is an assertion failure
-// OB: ob_csr_enum tier=quick unwind=12 unwindset=g__ZN6galois6graphs9FileGraph10fromArraysEPmmPvmPcmmmbi.3:26,g__ZN6galois6graphs9FileGraph10fromArraysEPmmPvmPcmmmbi.12:26 timeout=300 params=35,2 bounds="LC_CSR_Graph<int,uint32_t> and <int,void>: all 35 out-index arrays with nodes 0..3, edges 0..3; destinations (<nodes) and edge data symbolic" desc="allocateFrom(FileGraph)+constructFrom(FileGraph,0,1): nodes, edge_begin/edge_end/getEdgeDst/getEdgeData/getDegree enumerate exactly the input in file order"
-// OB: ob_csr_enum_e4 tier=thorough unwind=12 unwindset=g__ZN6galois6graphs9FileGraph10fromArraysEPmmPvmPcmmmbi.3:26,g__ZN6galois6graphs9FileGraph10fromArraysEPmmPvmPcmmmbi.12:26 timeout=300 params=21,2 bounds="as ob_csr_enum: the 21 out-index arrays with 4 edges" desc="allocateFrom+constructFrom(FileGraph,0,1) presents exactly the input (4 edges)"
-// OB: ob_csr_enum_api tier=quick unwind=12 timeout=300 params=35 bounds="LC_CSR_Graph<int,uint32_t>: 35 out-index arrays (edges<=3); destinations and edge data symbolic" desc="incremental builder allocateFrom(n,e)+constructNodes+fixEndEdge+constructEdge: the graph enumerates exactly the input"
-// OB: ob_csr_enum_api_e4 tier=thorough unwind=12 timeout=300 params=21,2 bounds="uint32_t and void edge data: the 21 out-index arrays with 4 edges" desc="incremental builder presents exactly the input (4 edges)"
-// OB: ob_csr_enum_vectors tier=quick unwind=12 timeout=300 params=35 bounds="LC_CSR_Graph<int,uint32_t>: 35 out-index arrays (edges<=3); std::vector<std::vector<>> inputs with concrete sizes" desc="constructFrom(numNodes,numEdges,prefix_sum,edges_id,edges_data) presents exactly the input; local range = all nodes"
-// OB: ob_csr_enum_vectors_e4 tier=thorough unwind=12 timeout=300 params=21 bounds="the 21 out-index arrays with 4 edges" desc="constructFrom(vectors) presents exactly the input (4 edges)"
-// OB: ob_csr_transpose tier=quick unwind=12 timeout=300 solver=cadical params=35,2 bounds="uint32_t and void edge data: 35 out-index arrays (edges<=3); destinations, data symbolic" desc="transpose(): edge ranges tile [0,E), in-degrees right, and the result is a permutation of the reversed edge multiset with each edge's data attached to it"
-// OB: ob_csr_transpose_e4 tier=thorough unwind=12 timeout=300 solver=cadical params=21,2 bounds="the 21 out-index arrays with 4 edges" desc="transpose() is the reversed edge multiset (4 edges)"
-// OB: ob_csr_transpose2 tier=thorough unwind=12 timeout=600 solver=cadical params=56 bounds="uint32_t edge data: all 56 out-index arrays" desc="transpose() twice: the original out-index and, per node, a permutation of the original (destination, data) multiset"
-// OB: ob_csr_sort_dst tier=quick unwind=12 timeout=300 solver=cadical params=35 bounds="uint32_t edge data: 35 out-index arrays (edges<=3); every node sorted in turn" desc="sortEdgesByDst(N): node N's edges become a destination-ordered permutation of the same (destination, data) multiset; all other edges untouched"
-// OB: ob_csr_sort_dst_e4 tier=thorough unwind=12 timeout=600 solver=cadical params=21 bounds="the 21 out-index arrays with 4 edges" desc="sortEdgesByDst (4 edges)"
-// OB: ob_csr_sort_data tier=quick unwind=12 timeout=300 solver=cadical params=35 bounds="uint32_t edge data: 35 out-index arrays (edges<=3)" desc="sortEdgesByEdgeData(N, less): node N's edges become a data-ordered permutation of the same multiset; all other edges untouched"
-// OB: ob_csr_sort_data_e4 tier=thorough unwind=12 timeout=600 solver=cadical params=21 bounds="the 21 out-index arrays with 4 edges" desc="sortEdgesByEdgeData (4 edges)"
-// OB: ob_csr_sort_all tier=quick unwind=12 timeout=300 solver=cadical params=35,2 bounds="uint32_t and void edge data: 35 out-index arrays (edges<=3)" desc="sortAllEdgesByDst(): every node's edges are a destination-ordered permutation of its input multiset"
-// OB: ob_csr_sort_all_e4 tier=thorough unwind=12 timeout=600 solver=cadical params=21,2 bounds="the 21 out-index arrays with 4 edges" desc="sortAllEdgesByDst (4 edges)"
-// OB: ob_csr_find tier=quick unwind=12 timeout=300 params=35 bounds="35 out-index arrays (edges<=3); every source node, symbolic 32-bit key" desc="findEdge(N1,N2): found iff N2 is a neighbour of N1; the returned edge is in N1's range and has destination N2; no access outside the arrays"
-// OB: ob_csr_find_e4 tier=thorough unwind=12 timeout=300 params=21 bounds="the 21 out-index arrays with 4 edges" desc="findEdge (4 edges)"
-// OB: ob_csr_find_sorted tier=quick unwind=12 timeout=300 params=35 bounds="35 out-index arrays (edges<=3), destinations sorted per node (precondition); every source node, symbolic 32-bit key" desc="findEdgeSortedByDst(N1,N2): found iff present, returned edge has destination N2, NO ACCESS OUTSIDE edgeDst[0,numEdges)"
-// OB: ob_csr_find_sorted_inner tier=quick unwind=12 timeout=300 params=35 bounds="as ob_csr_find_sorted, restricted to searches whose lower bound is not edge id numEdges (the complement of the out-of-bounds case)" desc="findEdgeSortedByDst: found iff present and the returned edge has destination N2, whenever the binary search does not end at edge id numEdges"
-// OB: ob_csr_find_sorted_e4 tier=thorough unwind=12 timeout=300 params=21 bounds="the 21 out-index arrays with 4 edges, restricted as ob_csr_find_sorted_inner" desc="findEdgeSortedByDst (4 edges)"
-// OB: ob_csr_local tier=quick unwind=12 timeout=300 params=4 bounds="LC_CSR_Graph (interleaved flavour): 1..4 active threads (one query each), any node count < 2^32, every thread id" desc="local_begin/local_end of consecutive thread ids tile [0,numNodes)"
-// OB: ob_csr_numa tier=quick unwind=12 unwindset=g__ZN6galois6graphs9FileGraph10fromArraysEPmmPvmPcmmmbi.3:26,g__ZN6galois6graphs9FileGraph10fromArraysEPmmPvmPcmmmbi.12:26 timeout=300 params=35 bounds="LC_CSR_Graph<int,uint32_t,false,true> (NUMA-blocked flavour, out-of-line locks variant excluded), one thread: 35 out-index arrays (edges<=3)" desc="blocked-allocation flavour built from the file presents exactly the input; local range set by constructFrom = all nodes; initializeLocalRanges keeps it"
-// OB: ob_csr_divide tier=quick unwind=12 timeout=300 params=56 bounds="all 56 out-index arrays; 1..3 divisions; node weight 0 / edge weight 1 (what initializeLocalRanges uses)" desc="LC_CSR_Graph::divideByNode: node ranges of consecutive divisions tile [0,numNodes) and each edge range is exactly the edges of the node range"
+// OB: ob_csr_enum tier=quick unwind=14 unwindset=g__ZN6galois6graphs9FileGraph10fromArraysEPmmPvmPcmmmbi.3:26,g__ZN6galois6graphs9FileGraph10fromArraysEPmmPvmPcmmmbi.12:26 timeout=300 params=7,2 bounds="LC_CSR_Graph<int,uint32_t> and <int,void>: all 35 out-index arrays with nodes 0..3, edges 0..3; destinations (<nodes) and edge data symbolic" desc="allocateFrom(FileGraph)+constructFrom(FileGraph,0,1): nodes, edge_begin/edge_end/getEdgeDst/getEdgeData/getDegree enumerate exactly the input in file order"
+// OB: ob_csr_enum_e4 tier=thorough unwind=14 unwindset=g__ZN6galois6graphs9FileGraph10fromArraysEPmmPvmPcmmmbi.3:26,g__ZN6galois6graphs9FileGraph10fromArraysEPmmPvmPcmmmbi.12:26 timeout=300 params=5,2 bounds="as ob_csr_enum: the 21 out-index arrays with 4 edges" desc="allocateFrom+constructFrom(FileGraph,0,1) presents exactly the input (4 edges)"
+// OB: ob_csr_enum_api tier=quick unwind=14 timeout=300 params=7 bounds="LC_CSR_Graph<int,uint32_t>: 35 out-index arrays (edges<=3); destinations and edge data symbolic" desc="incremental builder allocateFrom(n,e)+constructNodes+fixEndEdge+constructEdge: the graph enumerates exactly the input"
+// OB: ob_csr_enum_api_e4 tier=thorough unwind=14 timeout=300 params=5,2 bounds="uint32_t and void edge data: the 21 out-index arrays with 4 edges" desc="incremental builder presents exactly the input (4 edges)"
+// OB: ob_csr_enum_vectors tier=quick unwind=20 timeout=300 params=7 bounds="LC_CSR_Graph<int,uint32_t>: 35 out-index arrays (edges<=3); std::vector<std::vector<>> inputs with concrete sizes" desc="constructFrom(numNodes,numEdges,prefix_sum,edges_id,edges_data) presents exactly the input; local range = all nodes"
+// OB: ob_csr_enum_vectors_e4 tier=thorough unwind=20 timeout=300 params=5 bounds="the 21 out-index arrays with 4 edges" desc="constructFrom(vectors) presents exactly the input (4 edges)"
+// OB: ob_csr_transpose tier=quick unwind=14 timeout=300 solver=cadical params=7 bounds="uint32_t edge data: 35 out-index arrays (edges<=3); destinations, data symbolic" desc="transpose(): edge ranges tile [0,E), in-degrees right, and the result is a permutation of the reversed edge multiset with each edge's data attached to it"
+// OB: ob_csr_transpose_void tier=thorough unwind=14 timeout=300 solver=cadical params=7 bounds="void edge data: 35 out-index arrays (edges<=3); destinations, data symbolic" desc="transpose(): edge ranges tile [0,E), in-degrees right, and the result is a permutation of the reversed edge multiset with each edge's data attached to it"
+// OB: ob_csr_transpose_e4 tier=thorough unwind=14 timeout=300 solver=cadical params=5,2 bounds="the 21 out-index arrays with 4 edges" desc="transpose() is the reversed edge multiset (4 edges)"
+// OB: ob_csr_transpose2 tier=thorough unwind=14 timeout=600 solver=cadical params=12 bounds="uint32_t edge data: all 56 out-index arrays" desc="transpose() twice: the original out-index and, per node, a permutation of the original (destination, data) multiset"
+// OB: ob_csr_sort_dst tier=thorough unwind=14 timeout=300 solver=cadical params=7 bounds="uint32_t edge data: 35 out-index arrays (edges<=3); every node sorted in turn" desc="sortEdgesByDst(N): node N's edges become a destination-ordered permutation of the same (destination, data) multiset; all other edges untouched"
+// OB: ob_csr_sort_dst_e4 tier=thorough unwind=14 timeout=600 solver=cadical params=5 bounds="the 21 out-index arrays with 4 edges" desc="sortEdgesByDst (4 edges)"
+// OB: ob_csr_sort_data tier=quick unwind=14 timeout=300 solver=cadical params=7 bounds="uint32_t edge data: 35 out-index arrays (edges<=3)" desc="sortEdgesByEdgeData(N, less): node N's edges become a data-ordered permutation of the same multiset; all other edges untouched"
+// OB: ob_csr_sort_data_e4 tier=thorough unwind=14 timeout=600 solver=cadical params=5 bounds="the 21 out-index arrays with 4 edges" desc="sortEdgesByEdgeData (4 edges)"
+// OB: ob_csr_sort_all tier=quick unwind=14 timeout=300 solver=cadical params=7 bounds="uint32_t edge data: 35 out-index arrays (edges<=3)" desc="sortAllEdgesByDst(): every node's edges are a destination-ordered permutation of its input multiset"
+// OB: ob_csr_sort_all_void tier=thorough unwind=14 timeout=300 solver=cadical params=7 bounds="void edge data: 35 out-index arrays (edges<=3)" desc="sortAllEdgesByDst(): every node's edges are a destination-ordered permutation of its input multiset"
+// OB: ob_csr_sort_all_e4 tier=thorough unwind=14 timeout=600 solver=cadical params=5,2 bounds="the 21 out-index arrays with 4 edges" desc="sortAllEdgesByDst (4 edges)"
+// OB: ob_csr_find tier=quick unwind=14 timeout=300 params=7 bounds="35 out-index arrays (edges<=3); every source node, symbolic 32-bit key" desc="findEdge(N1,N2): found iff N2 is a neighbour of N1; the returned edge is in N1's range and has destination N2; no access outside the arrays"
+// OB: ob_csr_find_e4 tier=thorough unwind=14 timeout=300 params=5 bounds="the 21 out-index arrays with 4 edges" desc="findEdge (4 edges)"
+// OB: ob_csr_find_sorted tier=quick unwind=14 timeout=300 params=7 bounds="35 out-index arrays (edges<=3), destinations sorted per node (precondition); every source node, symbolic 32-bit key" desc="findEdgeSortedByDst(N1,N2): found iff present, returned edge has destination N2, NO ACCESS OUTSIDE edgeDst[0,numEdges)"
+// OB: ob_csr_find_sorted_inner tier=quick unwind=14 timeout=300 params=7 bounds="as ob_csr_find_sorted, restricted to searches whose lower bound is not edge id numEdges (the complement of the out-of-bounds case)" desc="findEdgeSortedByDst: found iff present and the returned edge has destination N2, whenever the binary search does not end at edge id numEdges"
+// OB: ob_csr_find_sorted_inner_e4 tier=thorough unwind=14 timeout=300 params=5 bounds="the 21 out-index arrays with 4 edges, restricted as ob_csr_find_sorted_inner" desc="findEdgeSortedByDst (4 edges)"
+// OB: ob_csr_local tier=quick unwind=14 timeout=300 params=4 bounds="LC_CSR_Graph (interleaved flavour): 1..4 active threads (one query each), any node count < 2^32, every thread id" desc="local_begin/local_end of consecutive thread ids tile [0,numNodes)"
+// OB: ob_csr_numa tier=thorough unwind=14 unwindset=g__ZN6galois6graphs9FileGraph10fromArraysEPmmPvmPcmmmbi.3:26,g__ZN6galois6graphs9FileGraph10fromArraysEPmmPvmPcmmmbi.12:26 timeout=300 params=7 bounds="LC_CSR_Graph<int,uint32_t,false,true> (NUMA-blocked flavour, out-of-line locks variant excluded), one thread: 35 out-index arrays (edges<=3)" desc="blocked-allocation flavour built from the file presents exactly the input; local range set by constructFrom = all nodes; initializeLocalRanges keeps it"
+// OB: ob_csr_divide tier=thorough unwind=14 timeout=300 params=12 bounds="all 56 out-index arrays; 1..3 divisions; node weight 0 / edge weight 1 (what initializeLocalRanges uses)" desc="LC_CSR_Graph::divideByNode: node ranges of consecutive divisions tile [0,numNodes) and each edge range is exactly the edges of the node range"
 #include "C11_common.h"
 #include "galois/graphs/LC_CSR_Graph.h"
 
@@ -43,7 +46,7 @@ template <typename G>
 constexpr bool has_data = !std::is_void<typename G::edge_data_type>::value;
 
 template <typename G>
-G& build_file_csr(const Model& m) {
+NOINL G& build_file_csr(const Model& m) {
   FileGraph& f = build_file(m, has_data<G>);
   G& g         = *new G;
   g.allocateFrom(f);
@@ -54,7 +57,7 @@ G& build_file_csr(const Model& m) {
 // the public incremental builder (allocateFrom(n,e), constructNodes, fixEndEdge, constructEdge) used by the apps
 // (triangle counting, betweenness centrality, libcusp partitioners)
 template <typename G>
-G& build_api(const Model& m) {
+NOINL G& build_api(const Model& m) {
   G& g = *new G;
   g.allocateFrom(m.n, m.e);
   g.constructNodes();
@@ -83,7 +86,7 @@ uint32_t edge_dst(G& g, uint64_t x) {
 // enumerate g against the model: node ids, every node's edge range, every edge's destination and data (by edge id:
 // the per-node ranges are compared as intervals)
 template <typename G>
-void check_same(G& g, const Model& m) {
+NOINL void check_same(G& g, const Model& m) {
   VF_CHECK(g.size() == m.n);
   VF_CHECK(g.sizeEdges() == m.e);
   VF_CHECKM(*g.begin() == 0 && *g.end() == m.n, "node ids are 0..n-1");
@@ -100,7 +103,7 @@ void check_same(G& g, const Model& m) {
 
 // a walk through the public iteration interface with the default (locking) method flag
 template <typename G>
-void check_walk(G& g, const Model& m) {
+NOINL void check_walk(G& g, const Model& m) {
   unsigned total = 0;
   for (auto n : g)
     for (auto e : g.edges(n)) {
@@ -112,7 +115,7 @@ void check_walk(G& g, const Model& m) {
 }
 
 template <typename G>
-void enum_file(unsigned shape) {
+NOINL void enum_file(unsigned shape) {
   Model m;
   make_model(m, shape);
   G& g = build_file_csr<G>(m);
@@ -120,14 +123,14 @@ void enum_file(unsigned shape) {
   check_walk(g, m);
 }
 template <typename G>
-void enum_api(unsigned shape) {
+NOINL void enum_api(unsigned shape) {
   Model m;
   make_model(m, shape);
   G& g = build_api<G>(m);
   check_same(g, m);
 }
 
-void enum_vectors(unsigned shape) {
+NOINL void enum_vectors(unsigned shape) {
   Model m;
   make_model(m, shape);
   // never destroyed (see the cost model: container teardown is not part of the property)
@@ -149,7 +152,7 @@ void enum_vectors(unsigned shape) {
 
 // ---- transpose
 template <typename G>
-void transpose(unsigned shape) {
+NOINL void transpose(unsigned shape) {
   Model m;
   make_model(m, shape);
   G& g = build_api<G>(m);
@@ -196,7 +199,7 @@ void transpose(unsigned shape) {
 
 // per node: graph range [b,e) is a permutation of the model's (dst,data) multiset over the same range
 template <typename G>
-void check_node_perm(G& g, const Model& m, unsigned k) {
+NOINL void check_node_perm(G& g, const Model& m, unsigned k) {
   unsigned b = m.begin(k), e = m.idx[k];
   VF_CHECK(*g.edge_begin(k, MethodFlag::UNPROTECTED) == b && *g.edge_end(k, MethodFlag::UNPROTECTED) == e);
   uint32_t gd[MAXE + 1], gw[MAXE + 1];
@@ -214,7 +217,7 @@ void check_node_perm(G& g, const Model& m, unsigned k) {
   }
 }
 
-void transpose2(unsigned shape) {
+NOINL void transpose2(unsigned shape) {
   Model m;
   make_model(m, shape);
   GraphW& g = build_api<GraphW>(m);
@@ -225,7 +228,7 @@ void transpose2(unsigned shape) {
 }
 
 // ---- sorting one node at a time: byData = false: sortEdgesByDst, true: sortEdgesByEdgeData
-void sort_each(unsigned shape, bool byData) {
+NOINL void sort_each(unsigned shape, bool byData) {
   Model m;
   make_model(m, shape);
   GraphW& g = build_api<GraphW>(m);
@@ -254,7 +257,7 @@ void sort_each(unsigned shape, bool byData) {
 }
 
 template <typename G>
-void sort_all(unsigned shape) {
+NOINL void sort_all(unsigned shape) {
   Model m;
   make_model(m, shape);
   G& g = build_api<G>(m);
@@ -268,7 +271,7 @@ void sort_all(unsigned shape) {
 }
 
 // ---- lookup
-void find_linear(unsigned shape) {
+NOINL void find_linear(unsigned shape) {
   Model m;
   make_model(m, shape);
   GraphW& g    = build_api<GraphW>(m);
@@ -286,7 +289,7 @@ void find_linear(unsigned shape) {
   }
 }
 
-void find_sorted(unsigned shape, bool inner) {
+NOINL void find_sorted(unsigned shape, bool inner) {
   Model m;
   make_model(m, shape);
   // documented precondition: each node's edges are sorted by destination
@@ -301,7 +304,7 @@ void find_sorted(unsigned shape, bool inner) {
       if (m.dst[x - 1] >= key) lb = x - 1;
     for (unsigned x = m.begin(k); x < m.idx[k]; ++x)
       if (m.dst[x] == key) present = true;
-    if (inner) vf_assume(lb != m.e);
+    if (inner && lb == m.e) continue; // the complement is ob_csr_find_sorted's finding
     uint64_t r = *g.findEdgeSortedByDst(k, key);
     if (present) {
       VF_CHECKM(r >= m.begin(k) && r < m.idx[k], "findEdgeSortedByDst: key is a neighbour but no edge of the node is returned");
@@ -312,26 +315,23 @@ void find_sorted(unsigned shape, bool inner) {
 }
 } // namespace
 
-OB(csr_enum) { if (vf_param(1) == 0) enum_file<GraphW>(vf_param(0)); else enum_file<GraphV>(vf_param(0)); }
-OB(csr_enum_e4) { if (vf_param(1) == 0) enum_file<GraphW>(E4 + vf_param(0)); else enum_file<GraphV>(E4 + vf_param(0)); }
-OB(csr_enum_api) { enum_api<GraphW>(vf_param(0)); }
-OB(csr_enum_api_e4) { if (vf_param(1) == 0) enum_api<GraphW>(E4 + vf_param(0)); else enum_api<GraphV>(E4 + vf_param(0)); }
-OB(csr_enum_vectors) { enum_vectors(vf_param(0)); }
-OB(csr_enum_vectors_e4) { enum_vectors(E4 + vf_param(0)); }
-OB(csr_transpose) { if (vf_param(1) == 0) transpose<GraphW>(vf_param(0)); else transpose<GraphV>(vf_param(0)); }
-OB(csr_transpose_e4) { if (vf_param(1) == 0) transpose<GraphW>(E4 + vf_param(0)); else transpose<GraphV>(E4 + vf_param(0)); }
-OB(csr_transpose2) { transpose2(vf_param(0)); }
-OB(csr_sort_dst) { sort_each(vf_param(0), false); }
-OB(csr_sort_dst_e4) { sort_each(E4 + vf_param(0), false); }
-OB(csr_sort_data) { sort_each(vf_param(0), true); }
-OB(csr_sort_data_e4) { sort_each(E4 + vf_param(0), true); }
-OB(csr_sort_all) { if (vf_param(1) == 0) sort_all<GraphW>(vf_param(0)); else sort_all<GraphV>(vf_param(0)); }
-OB(csr_sort_all_e4) { if (vf_param(1) == 0) sort_all<GraphW>(E4 + vf_param(0)); else sort_all<GraphV>(E4 + vf_param(0)); }
-OB(csr_find) { find_linear(vf_param(0)); }
-OB(csr_find_e4) { find_linear(E4 + vf_param(0)); }
-OB(csr_find_sorted) { find_sorted(vf_param(0), false); }
-OB(csr_find_sorted_inner) { find_sorted(vf_param(0), true); }
-OB(csr_find_sorted_e4) { find_sorted(E4 + vf_param(0), true); }
+#define GROUPS(name, CALL_Q, CALL_T)                                    \
+  OB(name) { for_group(0, E4, [](unsigned s) { CALL_Q; }); }               \
+  OB(name##_e4) { for_group(E4, 56, [](unsigned s) { CALL_T; }); }
+#define BY_TYPE(fn) (vf_param(1) == 0 ? fn<GraphW>(s) : fn<GraphV>(s))
+GROUPS(csr_enum, BY_TYPE(enum_file), BY_TYPE(enum_file))
+GROUPS(csr_enum_api, enum_api<GraphW>(s), BY_TYPE(enum_api))
+GROUPS(csr_enum_vectors, enum_vectors(s), enum_vectors(s))
+GROUPS(csr_transpose, transpose<GraphW>(s), BY_TYPE(transpose))
+OB(csr_transpose_void) { for_group(0, E4, [](unsigned s) { transpose<GraphV>(s); }); }
+OB(csr_transpose2) { for_group(0, 56, [](unsigned s) { transpose2(s); }); }
+GROUPS(csr_sort_dst, sort_each(s, false), sort_each(s, false))
+GROUPS(csr_sort_data, sort_each(s, true), sort_each(s, true))
+GROUPS(csr_sort_all, sort_all<GraphW>(s), BY_TYPE(sort_all))
+OB(csr_sort_all_void) { for_group(0, E4, [](unsigned s) { sort_all<GraphV>(s); }); }
+GROUPS(csr_find, find_linear(s), find_linear(s))
+OB(csr_find_sorted) { for_group(0, E4, [](unsigned s) { find_sorted(s, false); }); }
+GROUPS(csr_find_sorted_inner, find_sorted(s, true), find_sorted(s, true))
 
 // local ranges of the interleaved flavour: pure arithmetic on (numNodes, thread id, active threads)
 OB(csr_local) {
@@ -353,19 +353,20 @@ OB(csr_local) {
   galois::substrate::ThreadPool::my_box.topo.tid = 0;
 }
 
-OB(csr_numa) {
+NOINL static void numa(unsigned shape) {
   Model m;
-  make_model(m, vf_param(0));
+  make_model(m, shape);
   GraphN& g = build_file_csr<GraphN>(m);
   check_same(g, m);
   VF_CHECKM(*g.local_begin() == 0 && *g.local_end() == m.n, "one thread: constructFrom sets the local range to the whole node set");
   g.initializeLocalRanges();
   VF_CHECKM(*g.local_begin() == 0 && *g.local_end() == m.n, "one thread: initializeLocalRanges keeps the whole node set");
 }
+OB(csr_numa) { for_group(0, E4, [](unsigned s) { numa(s); }); }
 
-OB(csr_divide) {
+NOINL static void divide(unsigned shape) {
   Model m;
-  make_model(m, vf_param(0));
+  make_model(m, shape);
   GraphW& g  = build_api<GraphW>(m);
   for (unsigned T = 1; T <= 3; ++T) {
   uint64_t prevN = 0, prevE = 0;
@@ -385,3 +386,4 @@ OB(csr_divide) {
   if (m.n) VF_CHECKM(prevE == m.e, "edge ranges cover [0,numEdges)");
   }
 }
+OB(csr_divide) { for_group(0, 56, [](unsigned s) { divide(s); }); }
